@@ -1,4 +1,5 @@
 import Clover.Probe.Keys
+import Clover.Generated.Facts
 import Clover.Model.Index
 import Clover.Proofs.RefineWrites
 import Clover.Proofs.RefineBulkAny
@@ -73,5 +74,39 @@ theorem bulk_write_frame (s : CV.Spec.State) (σ : CV.KVS) (hw : CV.WF s) (hr : 
     let r := CV.withTx true (CV.Op.body likeFn fnFam (.update q u)) CV.noFault σ
     ∃ s', CV.Rep s' r.2.1 ∧ CV.WF s' ∧ ∀ c', c' ≠ q.coll → CV.Spec.lookup c' s' = CV.Spec.lookup c' s :=
   CV.update_inv likeFn fnFam s σ hw hr q u
+
+end CV.Props.C13
+
+namespace CV.Props.C13
+open CV.Facts
+
+/-- (facts, regenerated from the source on every run) **The key layout, the type ranks and the key
+    encoding dispatch of the current source are the ones the model transcribes**: `coll:<name>`
+    (`Keys.metaKey`), `c:<coll>;d:<id>` (`Keys.docKey`), `c:<coll>;i:<field>;` with its terminator
+    (`Keys.idxPrefix`), `t:<rank>;v:` + ordered code + the 36-byte id (`idxKey`, `extractId`), ranks
+    nil 0 < number 1 < string 2 < map 3 < slice 4 < bool 5 < time 6 (`Value.rank`), numbers encoded as
+    float64, booleans and times as uint64.  A source change to any of these functions breaks this
+    theorem at build time, whatever the tests do. -/
+theorem source_key_layout : keyLayout = [
+  "clover.getCollectionKey: return getCollectionKeyPrefix() + name",
+  "clover.getCollectionKeyPrefix: return \"coll:\"",
+  "clover.getDocumentKey: return getDocumentKeyPrefix(collection) + id",
+  "clover.getDocumentKeyPrefix: return \"c:\" + collection + \";\" + \"d:\"",
+  "index.extractDocId: if len(key) < 36 { panic(string(key)) } ; return key[:len(key)-36], key[len(key)-36:]",
+  "index.getKey: prefix := idx.getKeyPrefixForType(internal.TypeId(v)) ; return internal.OrderedCode(prefix, v)",
+  "index.getKeyPrefix: return []byte(fmt.Sprintf(\"c:%s;i:%s;\", idx.collection, idx.field))",
+  "index.getKeyPrefixForType: return []byte(fmt.Sprintf(\"%st:%d;v:\", idx.getKeyPrefix(), typeId))",
+  "internal.OrderedCode: return orderedCode(buf, v, false)",
+  "internal.TypeId: return typesMap[TypeName(v)]",
+  "internal.compareTypes: return TypeId(v1) - TypeId(v2)",
+  "internal.getEncodeValue: if util.IsNumber(value) { return util.ToFloat64(value) } ; switch vType := value.(type) { case bool: return uint64(util.BoolToInt(vType)) case time.Time: return uint64(vType.UnixNano()) } ; return value",
+  "internal.typesMap = map[string]int{ \"nil\": 0, \"number\": 1, \"string\": 2, \"map\": 3, \"slice\": 4, \"bool\": 5, \"time\": 6, }"] := by rfl
+
+/-- the model's literals are those strings -/
+def asciiBytes (s : String) : List UInt8 := s.toList.map (fun c => c.toNat.toUInt8)
+
+theorem model_key_literals :
+    Keys.sColl = asciiBytes "coll:" ∧ Keys.sC = asciiBytes "c:" ∧ Keys.sD = asciiBytes "d:" ∧
+    Keys.sI = asciiBytes "i:" ∧ [Keys.semi] = asciiBytes ";" := by decide
 
 end CV.Props.C13
